@@ -270,6 +270,32 @@ def rules(P, R, prefix="C14"):
             R.judge(ok, prefix + ".F3", key(f, "cancelled messages are not transmitted" + tag, i), n["sp"], "%s under %s" % (dt, show(pc)),
                     "writer.send(%s) is reachable when the message's handle is closed, or the data is not the popped pair's (path condition %s)" % (dt, show(pc)))
 
+        # a frame handed to the Framed sink is on the wire only after a flush: `SinkExt::send` = feed + flush.  A bare
+        # feed / start_send leaves the frame in the codec's buffer while the connection records it as in flight.
+        UNFLUSHED = ("futures_util::sink::SinkExt::feed", "futures_sink::Sink::start_send", "futures_util::sink::SinkExt::send_all")
+        feeds = [(f, n) for f in prog.fns.values() if not f.derived for n in f.nodes()
+                 if n["k"] in ("mcall", "call") and any(p in UNFLUSHED for p in callee_paths(n))]
+        for (f, n), i in ordinal_keys(feeds, lambda x: x[0].path):
+            ctx = env.ctx(f)
+            flushed = False
+            x = n
+            pm = f.parents()
+            while pm.get(id(x)) is not None and pm[id(x)]["k"] in ("await", "try", "match", "slet", "semi", "mcall", "assign"):
+                x = pm[id(x)]
+            blk = pm.get(id(x))
+            if blk is not None and blk["k"] == "block":
+                ss = blk.get("stmts", []) + ([blk["expr"]] if "expr" in blk else [])
+                idx = next((k for k, s_ in enumerate(ss) if s_ is x), None)
+                if idx is not None and idx + 1 < len(ss):
+                    nxt = ss[idx + 1]
+                    rt = ctx.term(n["recv"]) if n["k"] == "mcall" else None
+                    flushed = any(y["k"] == "mcall" and y["name"] == "flush" and ctx.term(y["recv"]) == rt and pm.get(id(y), {}).get("k") == "await"
+                                  for y in ir.walk(nxt, into_closures=False))
+            R.judge(flushed, prefix + ".F3", key(f, "frames written to a socket are flushed" + tag, i), n["sp"], "feed followed by flush().await",
+                    "`%s` queues a frame in the codec buffer without flushing it: the message is treated as sent (in flight / acknowledged) "
+                    "while it may never reach the wire" % ir.pp(n, maxlen=80))
+        R.ok(prefix + ".F3", "no unflushed frame writes besides the %d judged%s" % (len(feeds), tag), "", "feed/start_send/send_all call sites: %d" % len(feeds))
+
         # ---------------- F4 ACK pairing
         acks = [(f, n) for f in cfns for n in f.nodes() if n["k"] == "mcall" and ONESHOT_SEND in callee_paths(n)]
         others = [(f, n) for f in prog.fns.values() if f.crate == "network" and f.self_ty != CONN and not f.derived
@@ -485,6 +511,21 @@ def f7(prog, env, W, R, prefix, tag):
                 extra = [a for a in atoms_of(ic) if not a.startswith(("ok(", "some("))]
                 R.judge(not extra, prefix + ".F7", key(runner, "every received frame is dispatched (none filtered out)" + tag, i), n["sp"], show(ic),
                         "frames are dispatched only under `%s`: a skipped frame is never acknowledged, so the sender's FIFO ACK pairing shifts by one" % show(ic))
+                # a frame whose handler failed may have been left without its reply: the connection must end there, or the
+                # reply to the NEXT frame resolves the handle of this one (positional ACK pairing on the sender side)
+                ctx_r = env.ctx(runner)
+                okd = Atom("ok(%s)" % ctx_r.term(n))
+                try:
+                    lpaths = enum_paths(ctx_r, lp["body"])
+                except TooManyPaths:
+                    lpaths = None
+                if R.judge(lpaths is not None, prefix + ".F7", key(runner, "frame loop paths enumerable" + tag, i), lp["sp"], "",
+                           "too many paths through the frame loop (undecidable-shape)", reason="undecidable-shape"):
+                    bad = [p for p in lpaths if any(e is n for e in p.events) and p.exit in ("fall", "continue") and not implies(p.cond(), okd)[0]]
+                    R.judge(not bad, prefix + ".F7", key(runner, "connection is closed when the handler fails" + tag, i), n["sp"],
+                            "%d paths through the frame loop" % len(lpaths),
+                            "after dispatch returned Err the runner keeps reading frames (path `%s`): a message rejected before its reply was "
+                            "written leaves a hole in the reply stream, and every later reply resolves the wrong handle" % (show(bad[0].cond()) if bad else ""))
             awaited = runner.parents().get(id(n), {}).get("k") == "await"
             R.judge(ok and awaited, prefix + ".F7", key(runner, "frames of one connection are dispatched sequentially" + tag, i), n["sp"], "",
                     "dispatch is not awaited inside the per-connection frame loop (frames may be handled concurrently / replies reordered)")
